@@ -267,6 +267,9 @@ type verifOutage struct {
 	Reads  int
 	// FailFast: statements fail immediately at prepare/begin (connection refused, closed handle) instead of hanging
 	FailFast bool
+	// QueryError: the server still accepts statements (prepare succeeds) but every read fails at once when it is
+	// executed (a server that is restarting, a dropped connection noticed at the first round trip)
+	QueryError bool
 }
 
 func newVerifOutage() *verifOutage { return &verifOutage{wait: make(chan struct{})} }
@@ -289,6 +292,13 @@ func (g *verifOutage) Hook(op verifSQLOp) error {
 			return errVerifInjected
 		}
 		g.Reads++
+		if g.QueryError {
+			g.mu.Unlock()
+			if op.Kind == "prepare" {
+				return nil
+			}
+			return errVerifInjected
+		}
 		if g.FailFast {
 			// the other face of an outage: the server refuses at once (connection refused / closed handle) instead of
 			// not answering
